@@ -12,7 +12,7 @@ PROP = dict(
                "callback and session options) next to the declarative property (never below TLS 1.2; verification skipped only when "
                "asked and no server name; exactly the supplied roots, system pool only when none; values carried unchanged; exactly the "
                "supplied client certificate; unusable material is an error) and a handshake sub-model. TLC checks the transcription "
-               "against the property and the handshake consequences on all 1 555 200 lattice points; the driver calls TLSClientAuth, "
+               "against the property and the handshake consequences on all 2 073 600 lattice points; the driver calls TLSClientAuth, "
                "TLSTransport and TLSClient on real, freshly generated key material for every point and runs real handshakes against "
                "five in-process TLS servers; every projection and handshake outcome is validated against the spec.",
     level_note="exhaustive over the abstract lattice (finite); the real code is bound by trace validation on one concrete rendering of "
@@ -23,7 +23,7 @@ PROP = dict(
     exhaustive=True,
     rule="case = one point of the option lattice {cert file: none/RSA/EC/unreadable/garbage} x {loaded cert: none/RSA/EC} x {key file: "
          "none/RSA/EC/other/unreadable/garbage} x {loaded key: none/RSA/EC/other RSA/other EC/ed25519} x {CA file: none/ca1/ca2/"
-         "unreadable/garbage} x {loaded CA} x {pool} x server name {none, DNS name, IPv4 literal, IPv6 literal} x insecure x callback x tickets x cache, rendered with key "
+         "unreadable/garbage} x {loaded CA} x {pool: none, ca1, ca2, empty} x server name {none, DNS name, IPv4 literal, IPv6 literal} x insecure x callback x tickets x cache, rendered with key "
          "material generated for the run. quick: the whole material lattice x server name x insecure with the three copy-through "
          "flags rotating, plus all 32 flag combinations on a core sub-lattice; thorough: the full cross product. Handshakes with "
          "5 servers (trusted CA, other CA, wrong name, client certificate required, TLS<=1.1 only) on the error-free points whose "
